@@ -22,6 +22,103 @@ add(
     "Trusts Python's datetime/timedelta/Fraction arithmetic, jsonschema + rfc3339-validator for the schema clause; offsets are whole minutes; |duration| <= 1e7 s.",
 )
 
+add(
+    "C01",
+    PBT + "an integer-arithmetic fidelity oracle and a mutate-then-reread ownership oracle, on all three backends; plus seeded bulk batches of random instants",
+    "Generated events (instants 1970..2100, any offset, us durations, nested JSON) are inserted singly/bulk/mixed and read back; every object handed in or out is then mutated and all reads must be unchanged. Samples the ~4e15 instant space with boundary bias; not exhaustive.",
+    "Only id-less insertion; JSON without NaN/Inf; stores on tmpfs files; trusts datetime arithmetic.",
+)
+add(
+    "C02",
+    "model-based " + PBT + "a reference per-bucket list model; the same generated operation history runs on memory, sqlite and peewee and is compared after every step",
+    "Histories of up to 40 operations over 1-2 buckets with frequent timestamp/end ties; each backend must equal the list model (ids learnt, not predicted) after every operation; replace_last must hit the event a limit-1 read returned. Bounded history length.",
+    "Preconditions as in the property (live ids for replace/upsert etc.); tie-breaking among equally-new events is left to the backend.",
+)
+add(
+    "C03",
+    PBT + "a brute-force interval oracle with the property's 2 ms edge band (MUST / MAY / NEVER sets), on all three backends",
+    "Generated bucket contents (nested/overlapping/zero-length/24 h events) and windows (open-ended, zero-width, sub-ms, any offset) with limits; both directions checked (nothing missing, nothing extra), order, limit prefix, count band, clip shape.",
+    "Windows within ~100 s of the base instant, <= 10 events; 2 ms band and 24 h cap from the property.",
+)
+add(
+    "C04",
+    PBT + "a pure frame-condition oracle (API dump of all other buckets identical before/after every single operation) with adversarial ids and coinciding instants",
+    "Operations on bucket A use ids live in other buckets, dead, negative, huge, and events copied from other buckets' instants; other buckets must read back identically or the operation be rejected.",
+    "Integer ids; an exception counts as rejected.",
+)
+add(
+    "C05",
+    "model-based " + PBT + "a dict model of bucket metadata + events under create/update/delete/lookup histories incl. stale handles and non-existent ids",
+    "After every step the listing equals the model (metadata as given, created as an instant, events as a multiset); error classes for non-existent ids are checked together with 'changes nothing'.",
+    "No duplicate create; non-empty update values; omitted name not compared.",
+)
+add(
+    "C07",
+    PBT + "heartbeat_reduce as the reference for the standard get(1)/merge/replace_last|insert loop on all three backends, with other populated buckets sharing the store",
+    "Constructive streams (zero-length heartbeats, starts at previous end, end ties) are ingested; final contents must equal heartbeat_reduce; after each heartbeat older events and other buckets must be untouched.",
+    "heartbeat_reduce is trusted here and judged by C08.",
+)
+add(
+    "C08",
+    PBT + "an integer-microsecond statement of the hull rule and its left fold",
+    "Pairs/lists in any order with overlaps, ties, zero/negative durations and pulsetimes constructed to sit exactly on the boundary; iff-direction of mergeability, result shape, fold equality, normal form, idempotence, coverage.",
+    "Pulsetime is an integer number of microseconds; ms-grid timestamps.",
+)
+add(
+    "C09",
+    PBT + "brute-force O(n*m) interval set arithmetic on an integer ms grid (multiset equality, both directions)",
+    "Touching/zero-length/identical/nested/one-spanning-many layouts, shuffled; intersection pieces as a multiset incl. id and data, non-modification of inputs; union as the unique list of maximal closed intervals.",
+    "ms grid; closed-interval semantics for union; union may modify inputs.",
+)
+add(
+    "C10",
+    PBT + "an integer covered-set oracle (input plus exactly the gaps 0<g<=P)",
+    "Chains of gaps below/at/above the pulsetime with equal/differing neighbours and zero-length events; exact covered set, no overlap, positive lengths, per-label coverage, input unmodified.",
+    "Inputs satisfy the property's precondition (non-overlapping, distinct timestamps).",
+)
+add(
+    "C11",
+    "grammar-based " + PBT + "an independent reference parser and an AST evaluator that applies the underlying functions to all arguments in order; metamorphic whitespace relation",
+    "Typed programs over all 22 built-ins with nested calls/lists/dicts in any argument position, rebinding, aliasing, awkward strings; result equality with the reference and invariance under separator whitespace.",
+    "No ';' or free backslashes in strings; whitespace only around , : = ;. The reference calls aw_transform / Bucket.get directly.",
+)
+add(
+    "C12",
+    PBT + "a before/after dump oracle over generated (annotating, failing) programs on all three backends, and a differential query_bucket vs direct windowed read",
+    "Programs biased to in-place annotators, with corruptions that raise midway; store dump must be identical; query_bucket / eventcount must equal direct reads for windows with offsets, sub-ms edges, zero width.",
+    "A failing query may raise anything.",
+)
+add(
+    "C15",
+    PBT + "an integer interval-subtraction oracle (list one unchanged + uncovered parts of list two as multisets)",
+    "Sorted non-overlapping lists with containment both ways, spanning, shared edges, zero-length events; both directions, no overlap, inputs unmodified.",
+    "Pieces are compared after cutting at list-one edges (a zero-length list-one event may split a piece); zero-length list-two pieces ignored.",
+)
+add(
+    "C16",
+    PBT + "grouping / run / permutation / partition oracles written directly from the property",
+    "Event lists with missing keys, list-valued keys, equal values under different keys, duplicates; conservation of events and microseconds; inputs unmodified.",
+    "Non-empty key lists; values without bools/floats; chunk maximality only on sorted gap-free input.",
+)
+add(
+    "C17",
+    "coverage-guided fuzzing (atheris/libFuzzer, oracle inside the target, root-cause bucketing) plus " + PBT + "a traceback-classifying oracle over random token text, corrupted valid programs and typed corruptions with expected error classes",
+    "Every input must yield a value or a QueryException within 10 s; other exceptions are violations unless raised below a built-in's own body. Typed corruptions must give the documented class.",
+    "Inputs <= 128 chars for the fuzzer; termination = returns within 10 s; atheris campaigns approximately reproducible, findings re-confirmed by plain replay.",
+)
+add(
+    "C19",
+    PBT + "a frame oracle (everything but the owned keys unchanged) and a reference matcher built on re.search",
+    "Events x rule lists with overlapping rules, equal depths, empty regex, select_keys on missing/non-string values, unicode; categorize/tag values and the frame for all four transforms.",
+    "Python's re is shared; select_keys=[] not generated; URL component values not judged.",
+)
+add(
+    "C20",
+    PBT + "a reference dict overlay, with tomllib validating the harness's TOML writer, for existing and absent user files",
+    "Default/user trees up to three tables deep with type changes, arrays, comments; overlay equality (type-sensitive), user file bytes unchanged, absent-file path stable over three loads.",
+    "No arrays of tables / inline tables / multi-line values / table-scalar conflicts.",
+)
+
 NOT_YET = {}
 
 
